@@ -22,6 +22,7 @@ mod replay_timers;
 mod rec_vec;
 mod replay_print;
 mod replay_session;
+mod rec_conealg;
 
 use rand::rngs::StdRng;
 use rand::{Rng, SeedableRng};
@@ -234,6 +235,17 @@ fn main() {
         "session-replay" => {
             let r = replay_session::replay_file(&args.get("in", "b.ndjson"), &args.get("out", "m.ndjson"), &args.get("dir", "/tmp"), args.num("seed", 1), &args.get("only", "all"));
             println!("{}", r);
+        }
+        "conealg" => {
+            let (lines, meta) = rec_conealg::record(args.num("seed", 1), args.num("count", 3000) as usize);
+            write_lines(&args.get("out", "conealg.ndjson"), &lines);
+            println!("{}", meta);
+        }
+        "conealg-replay" => {
+            let v = load_case(&args);
+            let c: problem::ConeSpec = serde_json::from_value(v["cone"].clone()).unwrap();
+            let g = |k: &str| -> Vec<f64> { v[k].as_array().unwrap().iter().map(|x| x.as_f64().unwrap()).collect() };
+            write_lines(&args.get("out", "conealg.ndjson"), &[rec_conealg::event(0, &c, &g("s"), &g("z"), &g("x"), &g("y"), v["sigma_mu"].as_f64().unwrap(), v["y_interior"].as_bool().unwrap(), "replay")]);
         }
         "vecmath" => {
             let lines = rec_vec::record(args.num("seed", 1), args.get("tier", "quick") == "thorough");
